@@ -463,7 +463,8 @@ def r7_content_addressed(ctx):
             locterm, payload = e.args[0], e.args[1]
             digests = find(locterm, lambda x: x[0] == 'call' and x[1][0] == 'attr' and x[1][2] == 'digest' and len(x[2]) == 1)
             xs = {d[2][0] for d in digests}
-            hit = [x for x in xs if contains(payload, lambda y: y == x)]
+            # the hashed data must be *carried* by the payload (through stream wrappers / the cipher), not merely occur in it
+            hit = [x for x in xs if _carries(payload, x, enc)]
             st = own_stmt_of_chain(e, snap)
             ctx.check(
                 bool(hit),
@@ -474,7 +475,7 @@ def r7_content_addressed(ctx):
                 f'the uploaded payload {show(payload, limit=100)} does not derive from the data hashed for its location {show(locterm, limit=100)}',
             )
             if enc and hit:
-                encs = [y for x in hit for y in find(payload, lambda y: y[0] == 'call' and y[1][0] == 'attr' and y[1][2] == 'encrypt' and y[2] and y[2][0] == x)]
+                encs = hit  # _carries(.., enc=True) accepted the data only as the first argument of <cipher>.encrypt
                 ctx.check(
                     bool(encs),
                     'C02.R7',
@@ -484,6 +485,33 @@ def r7_content_addressed(ctx):
                     'encrypted mode: the payload is not the encryption of the hashed data',
                 )
     ctx.floor('C02.R7', 'chunk upload sites', n, 2)
+
+
+_STREAM_WRAPPERS = ('io.BytesIO', 'BytesIO', 'memoryview', 'bytes', 'bytearray')
+
+
+def _carries(t, x, enc, depth=0):
+    """is the uploaded payload `t` the data `x` itself (encrypted when enc), possibly wrapped in stream / progress /
+    rate-limit wrappers - on every alternative?  `len(x)`, slices or any other function of x do not count."""
+    if depth > 12 or not isinstance(t, tuple) or not t:
+        return False
+    if t == x:
+        return not enc
+    k = t[0]
+    if k == 'alt':
+        return bool(t[1]) and all(_carries(a, x, enc, depth + 1) for a in t[1])
+    if k == 'inst':
+        # wrapper classes of the code base (TQDMIOReader, _RateLimitedFileWrapper): the wrapped stream is the first argument
+        return bool(t[2]) and _carries(t[2][0], x, enc, depth + 1)
+    if k == 'call':
+        f, args = t[1], t[2]
+        if f[0] == 'attr' and f[2] == 'encrypt' and args:
+            return enc and args[0] == x
+        if f[0] == 'name' and f[1] in _STREAM_WRAPPERS and len(args) == 1:
+            return _carries(args[0], x, enc, depth + 1)
+        if f[0] == 'attr' and f[2] == 'wrap' and len(args) == 1:
+            return _carries(args[0], x, enc, depth + 1)
+    return False
 
 
 def r8_skip_upload_only_on_backend_answer(ctx, rule='C02.R8'):
